@@ -76,8 +76,7 @@ def switches : List (String × (Dev → Dev)) :=
   -- repaired in /repo and therefore no attribution targets any more: F1 sumDistinctEmptyZero (2b108eb), F5 denseRefusesNullKeys
   -- (4efd9ed), F8 NULL key = -1 (16c594a), F9 scalarMinMaxSentinel (988d68a), F10 qualifiedSumIntNull (ace82a4)
   [ ("C21-F2", fun d => { d with emptyAggNullKeysUngrouped := true }),
-    ("C21-F3", fun d => { d with nullKeyEmptyAccDropped := true }),
-    ("C21-F6", fun d => { d with rawSumNoSeenBit := true }) ]
+    ("C21-F3", fun d => { d with nullKeyEmptyAccDropped := true }) ]   -- F6 rawSumNoSeenBit repaired by 6f0d3ea
 
 /-- non-empty sublists, smallest first -/
 def subsets {α} : List α → List (List α)
